@@ -384,17 +384,32 @@ pub fn combinations(n: usize, k: usize, same: bool) -> f64 {
     if k > calc_n {
         return 0.0;
     }
-    (1..=k.min(calc_n - k))
-        .map(|i| (calc_n + 1 - i) as f64 / i as f64)
-        .product::<f64>()
-        .round()
+    // No factor is less than one, so a product that has
+    // become infinite stays so and need not be carried on
+    let mut product = 1.0;
+    for i in 1..=k.min(calc_n - k) {
+        product *= (calc_n + 1 - i) as f64 / i as f64;
+        if product == f64::INFINITY {
+            break;
+        }
+    }
+    product.round()
 }
 
 fn permutations(n: usize, k: usize) -> f64 {
     if k > n {
         return 0.0;
     }
-    (1..=n).rev().take(k).map(|i| i as f64).product()
+    // No factor is less than one, so a product that has
+    // become infinite stays so and need not be carried on
+    let mut product = 1.0;
+    for i in (1..=n).rev().take(k) {
+        product *= i as f64;
+        if product == f64::INFINITY {
+            break;
+        }
+    }
+    product
 }
 
 impl<T: ArrayValue> Array<T> {
